@@ -74,12 +74,12 @@ func (s *Staking) toSDK(v *StakingVal) stakingtypes.Validator {
 		panic(err)
 	}
 	return stakingtypes.Validator{
-		ConsensusPubkey: pkAny,
-		OperatorAddress: v.Addr.String(),
-		Jailed:          v.Jailed,
-		Status:          v.Status,
-		Tokens:          v.Tokens,
-		DelegatorShares: sdkmath.LegacyZeroDec(),
+		ConsensusPubkey:   pkAny,
+		OperatorAddress:   v.Addr.String(),
+		Jailed:            v.Jailed,
+		Status:            v.Status,
+		Tokens:            v.Tokens,
+		DelegatorShares:   sdkmath.LegacyZeroDec(),
 		MinSelfDelegation: sdkmath.ZeroInt(),
 	}
 }
